@@ -18,6 +18,10 @@ type typeFormatter struct {
 	config        Config
 	packageMapper func(pkg string, class string) string
 	context       languages.Context
+
+	// references to array/map aliases being formatted: these aliases are
+	// inlined, and they can be recursive (`A: [...A]`)
+	inlining map[ast.RefType]struct{}
 }
 
 func createFormatter(ctx languages.Context, config Config) *typeFormatter {
@@ -77,9 +81,21 @@ func (tf *typeFormatter) formatReference(def ast.RefType) string {
 	switch object.Type.Kind {
 	case ast.KindScalar:
 		return formatScalarType(object.Type.AsScalar())
-	case ast.KindMap:
-		return tf.formatMap(object.Type.AsMap())
-	case ast.KindArray:
+	case ast.KindMap, ast.KindArray:
+		// an alias that is recursive through arrays or maps has no finite
+		// inlined form: the recursion is cut with `Object`
+		if _, recursive := tf.inlining[def]; recursive {
+			return "Object"
+		}
+		if tf.inlining == nil {
+			tf.inlining = map[ast.RefType]struct{}{}
+		}
+		tf.inlining[def] = struct{}{}
+		defer delete(tf.inlining, def)
+
+		if object.Type.Kind == ast.KindMap {
+			return tf.formatMap(object.Type.AsMap())
+		}
 		return tf.formatArray(object.Type.AsArray())
 	default:
 		tf.packageMapper(def.ReferredPkg, def.ReferredType)
